@@ -19,10 +19,19 @@
 (* -> Verdict for BOLT-11 strings and signed BOLT-12 TLV streams, as       *)
 (* predicates over the observations of one parse.                          *)
 (*                                                                         *)
+(* Part (iii), ADMISSIBLE INPUTS: which builder inputs the property        *)
+(* quantifies over (field value ranges of BOLT-11 / BOLT-12): an           *)
+(* admissible input that a builder refuses is a violation, and so is an    *)
+(* input the format cannot represent that a builder accepts.  What a built *)
+(* or parsed object exposes through its accessors must be the numbers that *)
+(* went in; hand-assembled, honestly signed strings / TLV streams with the *)
+(* same boundary numbers must not panic the parsers and, when parsed, must *)
+(* re-serialise to themselves.                                             *)
+(*                                                                         *)
 (* Object ids are positions in `objs`.  Nodes are 1..NumNodes; node 0 is   *)
 (* "nobody" (an altered copy has no builder).                              *)
 (***************************************************************************)
-EXTENDS Naturals, Sequences, FiniteSets, TLC
+EXTENDS Integers, Sequences, FiniteSets, TLC
 
 CONSTANT NumNodes
 
@@ -48,7 +57,7 @@ NoContent == <<0, "none">>
 Junk(c) == [c EXCEPT !.k = 0]               \* a commitment nobody's key produces
 
 NoLast == [op |-> "none", n |-> 0, obj |-> 0, via |-> "none", nz |-> 0, accept |-> FALSE]
-NoCase == [fmt |-> "none", stage |-> "none", hasN |-> FALSE]
+NoCase == [fmt |-> "none", stage |-> "none", hasN |-> FALSE, hasv |-> FALSE, vals |-> <<>>]
 
 (* kind: "offer" | "refund" | "invreq" | "invoice"
    by:   builder (0 for an altered copy)          src: object it was built from / copied from
@@ -220,10 +229,121 @@ B12Signed == {"invreq", "invoice", "refund_invoice", "static_invoice"}
 B12Kinds == B12Signed \cup {"offer", "refund"}
 B12BitAllowed(kind, parsed) == kind \in B12Signed /\ ~parsed
 
-CaseBuild(fmt) ==
-  /\ fmt \in {"b11", "b12"}
-  /\ tc' = [fmt |-> fmt, stage |-> "built", hasN |-> FALSE]
+-----------------------------------------------------------------------------
+(* Part (iii): admissible builder inputs and numeric boundaries.
+
+   TLC integers have 32 bits; the numeric fields of payment requests have up to 64 (and a string
+   can spell more).  A number is a triple of base-10^9 limbs <<hi, mid, lo>>, most significant
+   first; NoNum (the empty tuple) is an absent optional field. *)
+Base == 1000000000
+NoNum == <<>>
+Zero == <<0, 0, 0>>
+One == <<0, 0, 1>>
+IsNum(x) == Len(x) = 3 /\ \A i \in 1..3 : x[i] >= 0 /\ x[i] < Base
+IsOptNum(x) == x = NoNum \/ IsNum(x)
+Lt(x, y) == \/ x[1] < y[1]
+            \/ x[1] = y[1] /\ x[2] < y[2]
+            \/ x[1] = y[1] /\ x[2] = y[2] /\ x[3] < y[3]
+Leq(x, y) == x = y \/ Lt(x, y)
+Succ(x) == IF x[3] < Base - 1 THEN <<x[1], x[2], x[3] + 1>>
+           ELSE IF x[2] < Base - 1 THEN <<x[1], x[2] + 1, 0>> ELSE <<x[1] + 1, 0, 0>>
+Pred(x) == IF x[3] > 0 THEN <<x[1], x[2], x[3] - 1>>
+           ELSE IF x[2] > 0 THEN <<x[1], x[2] - 1, Base - 1>> ELSE <<x[1] - 1, Base - 1, Base - 1>>
+Around(m) == {Pred(m), m, Succ(m)}
+
+MaxU16 == <<0, 0, 65535>>
+MaxU32 == <<0, 4, 294967295>>                  \* 2^32 - 1
+MaxU64 == <<18, 446744073, 709551615>>         \* 2^64 - 1
+MaxTimestamp == <<0, 34, 359738367>>           \* 2^35 - 1: BOLT-11 timestamp, 35 bits
+MaxMsat11 == <<1, 844674407, 370955161>>       \* (2^64 - 1) \div 10: amount in pico-BTC fits 64 bits
+MaxDescBytes == 639                            \* 1023 data symbols of 5 bits
+MaxValueMsat == <<2, 100000000, 0>>            \* 21 million BTC in msat
+
+(* BOLT-11 builder input: timestamp, expiry (optional), min_final_cltv_expiry_delta, amount in
+   msat (optional), description (its length in bytes; -1: a description hash instead). *)
+IsB11Input(v) ==
+  /\ IsNum(v.ts) /\ IsOptNum(v.expiry) /\ IsNum(v.cltv) /\ IsOptNum(v.amt) /\ v.desc \in -1..100000
+\* every timestamp of 35 bits, every 64-bit expiry and cltv delta, every amount from 0 to the
+\* largest one expressible in pico-BTC, every description of at most 639 bytes
+B11MustAccept(v) ==
+  /\ Leq(v.ts, MaxTimestamp)
+  /\ v.expiry = NoNum \/ Leq(v.expiry, MaxU64)
+  /\ Leq(v.cltv, MaxU64)
+  /\ v.amt = NoNum \/ Leq(v.amt, MaxMsat11)
+  /\ v.desc <= MaxDescBytes
+\* what a BOLT-11 string cannot carry (larger amounts are left open: a builder that accepts one
+\* must expose it and round-trip it, see CaseExposed)
+B11MustRefuse(v) == Lt(MaxTimestamp, v.ts) \/ v.desc > MaxDescBytes
+
+(* BOLT-12 offer / refund builder input: amount (optional for offers), quantity (offers: NoNum =
+   one, 0 = unbounded, n = at most n; refunds: NoNum or the quantity), absolute expiry (optional) *)
+IsB12Input(v) ==
+  /\ v.root \in {"offer", "refund"} /\ IsOptNum(v.amt) /\ IsOptNum(v.qty) /\ IsOptNum(v.aexp)
+  /\ (v.root = "refund") => v.amt # NoNum
+B12MustAccept(v) ==
+  /\ \/ v.amt = NoNum
+     \/ Leq(v.amt, MaxValueMsat) /\ (v.root = "offer" => Lt(Zero, v.amt))   \* an offer's amount is positive
+  /\ v.qty = NoNum \/ Leq(v.qty, MaxU64)
+  /\ v.aexp = NoNum \/ Leq(v.aexp, MaxU64)
+\* invoice: created_at (seconds), relative_expiry (optional, 32 bits)
+IsI12Input(v) == IsNum(v.created) /\ IsOptNum(v.rexp)
+I12MustAccept(v) == Leq(v.created, MaxU64) /\ (v.rexp = NoNum \/ Leq(v.rexp, MaxU32))
+
+\* the presence subsets the BOLT-12 builders accept: derived signing keys need a blinded path,
+\* metadata-derived means none; a refund always has an amount and a description and at most one chain
+B12Valid(p) ==
+  /\ (p.mode = "path") => p.paths > 0
+  /\ (p.mode = "meta") => p.paths = 0
+  /\ (p.root = "refund") => p.amt # "none" /\ p.desc /\ p.chain # "two"
+
+Refused == [NoCase EXCEPT !.fmt = "refused"]
+Started(fmt, built, hasv, v) ==
+  tc' = IF built THEN [fmt |-> fmt, stage |-> "built", hasN |-> FALSE, hasv |-> hasv, vals |-> v]
+        ELSE Refused
+
+\* a BOLT-11 builder call with the numbers v (presence subsets: every one of them is admissible)
+CaseBuild11(v, built) ==
+  /\ IsB11Input(v)
+  /\ built => ~B11MustRefuse(v)
+  /\ ~built => ~B11MustAccept(v)
+  /\ Started("b11", built, TRUE, v)
   /\ UNCHANGED <<objs, last>>
+
+\* a BOLT-12 offer / refund builder call with the presence subset p
+CaseBuild12(p, built) ==
+  /\ ~built => ~B12Valid(p)
+  /\ Started("b12", built, FALSE, <<>>)
+  /\ UNCHANGED <<objs, last>>
+
+\* a BOLT-12 offer / refund builder call with the numbers v
+CaseBuildNum12(v, built) ==
+  /\ IsB12Input(v)
+  /\ ~built => ~B12MustAccept(v)
+  /\ Started("b12", built, TRUE, v)
+  /\ UNCHANGED <<objs, last>>
+
+\* a BOLT-12 invoice builder call (answering an ordinary refund) with the numbers v
+CaseBuildInv12(v, built) ==
+  /\ IsI12Input(v)
+  /\ ~built => ~I12MustAccept(v)
+  /\ Started("b12", built, TRUE, v)
+  /\ UNCHANGED <<objs, last>>
+
+\* what the accessors of the object built (and parsed back) in this case say is what went in
+CaseExposed(v) ==
+  /\ tc.stage \in {"built", "rt"} /\ tc.hasv
+  /\ v = tc.vals
+  /\ UNCHANGED pvars
+
+(* A hand-assembled string (BOLT-11, signed by a fresh key, payee by recovery, bech32 checksum
+   computed) or TLV stream (BOLT-12 offer / refund; invoice signed by a fresh key) that spells the
+   numbers v in the canonical form (shortest integers).  The parser may refuse it; it must not
+   panic (no action for that), and what it parses must expose v, name the signer, and
+   re-serialise to the very same string / bytes.
+   o = [canon, parsed, reser, signer_eq, got] *)
+CaseAssembled(v, o) ==
+  /\ (o.canon /\ o.parsed) => (o.reser /\ o.signer_eq /\ o.got = v)
+  /\ UNCHANGED pvars
 
 \* every built object must round-trip before it is mutated
 CaseRoundTrip(kind, o) ==
